@@ -143,6 +143,18 @@ class MEEngine(HistEngine):
 ENGINES = [MEEngine()]
 
 
+def load_plugins():
+    """tools/eng_<name>.py files define ENGINE (a HistEngine subclass instance) and
+    optionally ASSUMPTIONS (dict pid -> list of strings) and SETUP (callable -> rc)."""
+    import importlib
+    for f in sorted(glob.glob(os.path.join(VERIF, "tools", "eng_*.py"))):
+        mod = importlib.import_module(os.path.basename(f)[:-3])
+        ENGINES.append(mod.ENGINE)
+        ASSUMPTIONS.update(getattr(mod, "ASSUMPTIONS", {}))
+        if hasattr(mod, "SETUP"):
+            EXTRA_SETUP.append(mod.SETUP)
+
+
 def engine_of(pid):
     for e in ENGINES:
         if pid in e.props:
@@ -172,6 +184,7 @@ def setup():
 
 
 EXTRA_SETUP = []
+ASSUMPTIONS = {}
 
 
 # ----------------------------------------------------------------------------
@@ -224,8 +237,10 @@ def run_property(pid, tier, seed):
     t0 = time.time()
     eng = engine_of(pid)
     if eng is None:
-        import pure
-        return pure.run_property(pid, tier, seed)
+        print("no engine claims property " + pid)
+        return 2
+    if hasattr(eng, "run_property"):
+        return eng.run_property(pid, tier, seed)
     P = eng.props[pid]
     mon = P["monitor"]
     known = C.load_known()
@@ -421,8 +436,10 @@ def replay(path):
     pid = rp["property"]
     eng = engine_of(pid)
     if eng is None:
-        import pure
-        return pure.replay(rp)
+        print("no engine claims property " + pid)
+        return 2
+    if hasattr(eng, "replay"):
+        return eng.replay(rp)
     if "history" not in rp:
         print("replay file names a broken obligation/correspondence without a history:")
         print(json.dumps({k: v for k, v in rp.items() if k != "log"}, indent=1))
@@ -457,10 +474,12 @@ TRUSTED_BASE = [
     "tools/check.py + tools/engines.py (verdict logic)",
 ]
 
-ASSUMPTIONS = {
+ASSUMPTIONS.update({
     "C13": ["endpoint names are opaque strings (numbered); '' is id 0",
             "time.AfterFunc modelled as: fires no earlier than due, any order, Stop() effective only before the runtime fired the timer",
             "priority claims are for duplicate-free lists; on duplicates the model follows the code (last position wins)"],
     "C14": ["as C13", "recovery timeout >= 0 for the clause 'a timer never takes an endpoint out of the available state' "
             "(with a negative timeout two state changes can share a timestamp and the code's stamp check cannot tell them apart)"],
-}
+})
+
+load_plugins()
